@@ -161,8 +161,8 @@ Definition units7 : list string := ["year"; "month"; "week"; "day"; "hour"; "min
 Definition units8 : list string := units7 ++ ["microsecond"].
 Definition bools : list bool := [false; true].
 
-(* the known defect: zh, relative to another value *)
-Definition excluded (L : locale) (now ab_ : bool) : bool := String.eqb (l_name L) "zh" && negb now && negb ab_.
+(* no (locale, flag) combination is excluded any more: the zh defect ('{time}' templates) was repaired by a fix: commit in /repo *)
+Definition excluded (L : locale) (now ab_ : bool) : bool := false.
 
 Definition locale_tail_ok (L : locale) : bool :=
   forallb (fun u => forallb (fun cls => forallb (fun now => forallb (fun ab_ => forallb (fun inv =>
@@ -232,26 +232,14 @@ Proof.
     apply tail_total; auto. apply second_in_units7.
 Qed.
 
-Lemma excluded_false L now ab_ : (l_name L <> "zh" \/ now = true \/ ab_ = true) -> excluded L now ab_ = false.
-Proof.
-  unfold excluded. intros [H|[->| ->]].
-  - destruct (String.eqb_spec (l_name L) "zh"); [contradiction | reflexivity].
-  - rewrite andb_false_r. reflexivity.
-  - rewrite andb_false_r. reflexivity.
-Qed.
-
-Lemma format_total_partial_lemma : forall L d now ab_ inv, In L all_locales ->
-  (l_name L <> "zh" \/ now = true \/ ab_ = true) ->
+Lemma format_total_lemma : forall L d now ab_ inv, In L all_locales ->
   exists s, format L d now ab_ inv = Ok s /\ s <> [] /\ Forall (fun c => c <> 123 /\ c <> 125) s.
 Proof.
-  intros L d now ab_ inv HL Hex. pose proof (format_total_ok L d now ab_ inv HL (excluded_false _ _ _ Hex)) as H.
+  intros L d now ab_ inv HL. pose proof (format_total_ok L d now ab_ inv HL eq_refl) as H.
   apply good_res_inv in H. destruct H as [s [E G]]. exists s. split; [exact E|]. apply goodstr_spec. exact G.
 Qed.
 
 Definition comp0 : comp := mkcomp 0 0 0 2 0 0 0.
-
-Lemma format_total_refuted_lemma : exists L d inv, In L all_locales /\ format L d false false inv = Raise E_KeyError.
-Proof. exists loc_zh, comp0, false. split; [cbn; tauto | vm_compute; reflexivity]. Qed.
 
 (* ================================================================== unit and count: the documented rounding *)
 Definition days_of (d : comp) : Z := c_weeks d * 7 + c_rdays d.
@@ -505,8 +493,7 @@ Proof.
   intros H. unfold range_list. apply in_map_iff. exists (Z.to_nat (k - lo)). split; [lia|]. apply in_seq. lia.
 Qed.
 
-(* the known defect: nl has no week_data *)
-Definition nl_tok (L : locale) (tok : Z) : bool := String.eqb (l_name L) "nl" && ((tok =? 5) || (tok =? 9)).
+(* every locale has week_data (nl was repaired by a fix: commit in /repo): no (locale, token) pair is excluded *)
 
 Definition ord_chk (L : locale) (cls : string) : bool := good_res (ordinalize_with L cls PROBE).
 
@@ -523,7 +510,7 @@ Definition locale_tokens_ok (L : locale) : bool :=
   forallb (fun w => good_res (token L 2 0 w 0 0) && good_res (token L 3 0 w 0 0) && good_res (token L 4 0 w 0 0)) (range_list 0 7) &&
   good_res (token L 10 0 0 0 0) && good_res (token L 10 0 0 0 12) &&
   forallb (ord_chk L) (leaves (l_ordinal L)) &&
-  (String.eqb (l_name L) "nl" || match first_day L with Ok _ => true | Raise _ => false end).
+  match first_day L with Ok _ => true | Raise _ => false end.
 
 Lemma all_locales_tokens_ok : forallb locale_tokens_ok all_locales = true.
 Proof. vm_compute. reflexivity. Qed.
@@ -537,10 +524,10 @@ Proof.
 Qed.
 
 Lemma tokens_total_lemma L tok month dow day hour : In L all_locales ->
-  0 <= tok <= 10 -> 1 <= month <= 12 -> 0 <= dow <= 6 -> nl_tok L tok = false ->
+  0 <= tok <= 10 -> 1 <= month <= 12 -> 0 <= dow <= 6 ->
   good_res (token L tok month dow day hour) = true.
 Proof.
-  intros HL Ht Hm Hw Hnl. pose proof all_locales_tokens_ok as H. rewrite forallb_forall in H. specialize (H L HL).
+  intros HL Ht Hm Hw. pose proof all_locales_tokens_ok as H. rewrite forallb_forall in H. specialize (H L HL).
   unfold locale_tokens_ok in H. rewrite !andb_true_iff in H.
   destruct H as [[[[[Hmo Hdw] Ham] Hpm] Ho] Hfd].
   rewrite forallb_forall in Hmo. specialize (Hmo month (in_range_list 1 12 month ltac:(lia))).
@@ -548,9 +535,7 @@ Proof.
   cbv beta in Hmo, Hdw. apply andb_true_iff in Hmo. destruct Hmo as [Hm0 Hm1].
   apply andb_true_iff in Hdw. destruct Hdw as [Hdw Hd4]. apply andb_true_iff in Hdw. destruct Hdw as [Hd2 Hd3].
   assert (Hfd' : (tok = 5 \/ tok = 9) -> exists fd, first_day L = Ok fd).
-  { intros Htok. unfold nl_tok in Hnl. destruct (String.eqb (l_name L) "nl"); cbn [orb andb] in *.
-    - exfalso. lia.
-    - destruct (first_day L); [eauto | discriminate]. }
+  { intros Htok. destruct (first_day L); [eauto | discriminate]. }
   assert (Hcases : tok = 0 \/ tok = 1 \/ tok = 2 \/ tok = 3 \/ tok = 4 \/ tok = 5 \/ tok = 6 \/ tok = 7 \/ tok = 8 \/ tok = 9 \/ tok = 10) by lia.
   repeat match goal with H : _ \/ _ |- _ => destruct H as [H|H] end; subst tok; cbn [token] in *; try assumption.
   - destruct (Hfd' (or_introl eq_refl)) as [fd ->]. cbn [bind good_res]. apply str_of_Z_good.
@@ -563,43 +548,6 @@ Qed.
 
 Definition loc_nl_present : In loc_nl all_locales.
 Proof. cbn; tauto. Qed.
-
-Lemma tokens_refuted_lemma : exists L, In L all_locales /\
-  forall month dow day hour, token L 5 month dow day hour = Raise E_TypeError /\ token L 9 month dow day hour = Raise E_TypeError.
-Proof. exists loc_nl. split; [exact loc_nl_present|]. intros. split; vm_compute; reflexivity. Qed.
-
-(* ================================================================== zh: every relative difference against another value raises *)
-Definition zh_chk (u cls : string) (inv : bool) : bool :=
-  good_res (inner_time loc_zh u cls PROBE inv) &&
-  match lget loc_zh ["custom"; ab inv] with
-  | Ok (Some (NStr _ t)) => match fields_err t None 0 with Some E_KeyError => true | _ => false end
-  | _ => false
-  end.
-
-Lemma zh_all_chk : forallb (fun u => forallb (fun cls => forallb (zh_chk u cls) bools) (leaves (l_plural loc_zh))) units7 = true
-  /\ lget loc_zh few_path = Ok None.
-Proof. split; vm_compute; reflexivity. Qed.
-
-Lemma zh_tail_raises u c inv : In u units7 -> tail loc_zh u c false false inv = Raise E_KeyError.
-Proof.
-  intros Hu. destruct zh_all_chk as [H _].
-  rewrite forallb_forall in H. specialize (H u Hu).
-  rewrite forallb_forall in H. specialize (H _ (seval_in_leaves (l_plural loc_zh) (norm_count c))).
-  rewrite forallb_forall in H. specialize (H inv (in_bools _)).
-  unfold zh_chk in H. apply andb_true_iff in H. destruct H as [Hin Hout].
-  pose proof (inner_time_good_indep loc_zh u _ PROBE (str_of_Z (norm_count c)) inv eq_refl (str_of_Z_good _) Hin) as Hb.
-  apply good_res_inv in Hb. destruct Hb as [time [Et _]].
-  unfold tail, tail_with. unfold lplural in *. rewrite Et. cbn [bind].
-  destruct (lget loc_zh ["custom"; ab inv]) as [[[raw t| | |]|]|e]; try discriminate.
-  cbn [bind node_format]. unfold render. destruct (fields_err t None 0) as [[]|]; try discriminate. reflexivity.
-Qed.
-
-Lemma zh_always_raises_lemma d inv : format loc_zh d false false inv = Raise E_KeyError.
-Proof.
-  unfold format. destruct (gen_pick d) as [[u c]|] eqn:Hp.
-  - apply zh_tail_raises. eapply pick_unit; eauto.
-  - destruct zh_all_chk as [_ ->]. cbn [bind]. apply zh_tail_raises. apply second_in_units7.
-Qed.
 
 (* ================================================================== explicit forms used in Props/C18.v *)
 Definition brace_free (s : pstr) : Prop := Forall (fun c => c <> 123 /\ c <> 125) s.
@@ -618,13 +566,9 @@ Proof. intros. apply good_res_explicit. apply in_words_total_lemma; [assumption 
 
 Lemma tokens_total_explicit : forall L tok month dow day hour, In L all_locales ->
   0 <= tok <= 10 -> 1 <= month <= 12 -> 0 <= dow <= 6 ->
-  (l_name L <> "nl" \/ (tok <> 5 /\ tok <> 9)) ->
   exists s, token L tok month dow day hour = Ok s /\ s <> [] /\ brace_free s.
 Proof.
-  intros L tok month dow day hour HL Ht Hm Hw Hex. apply good_res_explicit. apply tokens_total_lemma; try assumption.
-  unfold nl_tok. destruct Hex as [H|H].
-  - destruct (String.eqb_spec (l_name L) "nl"); [contradiction | reflexivity].
-  - assert ((tok =? 5) || (tok =? 9) = false) as -> by lia. apply andb_false_r.
+  intros L tok month dow day hour HL Ht Hm Hw. apply good_res_explicit. apply tokens_total_lemma; assumption.
 Qed.
 
 Lemma markers_distinct_explicit : forall L, In L all_locales -> locale_markers_ok L = true.
